@@ -1093,9 +1093,15 @@ fn with_watchdog<T: Send + 'static>(secs: u64, f: impl FnOnce() -> T + Send + 's
         let r = guarded(f);
         let _ = tx.send(r);
     });
-    match rx.recv_timeout(std::time::Duration::from_secs(secs)) {
+    // see c03::with_watchdog: the first two timeouts of a process wait much longer than `secs`
+    static TIMEOUTS: std::sync::atomic::AtomicUsize = std::sync::atomic::AtomicUsize::new(0);
+    let patient = TIMEOUTS.load(std::sync::atomic::Ordering::Relaxed) < 2;
+    match rx.recv_timeout(std::time::Duration::from_secs(if patient { secs.max(120) } else { secs })) {
         Ok(r) => r,
-        Err(_) => Err("timeout: the writer did not return within the watchdog period".into()),
+        Err(_) => {
+            TIMEOUTS.fetch_add(1, std::sync::atomic::Ordering::Relaxed);
+            Err("timeout: the writer did not return within the watchdog period".into())
+        }
     }
 }
 
